@@ -538,6 +538,12 @@ func (g *Gen) Callee() {
 	}
 	switch k {
 	case 0:
+		if sym.Param("litcallee", 0) == 1 && sym.Choose("calleelit", 2) == 1 {
+			// a decimal integer literal as the object of a member access / call / index (`1 .p` in source text)
+			g.tok(token.INT, "1")
+			g.emit(KInt)
+			return
+		}
 		g.tok(token.IDENT, "a")
 		g.emit(KIdent)
 	case 1:
